@@ -31,7 +31,11 @@ RULE = ("cases: dom = (cone with integer/dyadic rows, dyadic-lattice pair a,b) w
         "constructor as int64/int32 array, nested int list, float32 or Fortran-order float64 array with fractional "
         "quarter-lattice vectors (single, list, batched, float32 inputs); extreme = exactly representable dyadic "
         "pairs: ordinary differences (2^-10..1) at common offsets 2^10..2^20, tiny differences 2^-20..2^-40 near the "
-        "origin, translation and scaling (2^+-30, 2^+-20) laws on the real code, float/int/list/float32 W. non-trivial: dom/batch = not all "
+        "origin, translation and scaling (2^+-30, 2^+-20) laws on the real code, float/int/list/float32 W; meta = "
+        "metamorphic translation / 2^k-scaling invariance of dominates (single and same-shape batched calls) on cones "
+        "with non-dyadic entries (bundled acute/obtuse, theta-cones incl. rational-tangent angles, ice-cream, user "
+        "float matrices, N>m), differences weighted onto facets of the ideal cone, all sums asserted exact; "
+        "non-trivial when a pair is numerically on a facet of the stored W. non-trivial: dom/batch = not all "
         "facet values strictly of one sign or a tie present; laws = at least one implication premise true; "
         "ctor* = always (distinct parameters); distinct by the full case")
 ASSUMPTIONS = [
@@ -330,6 +334,102 @@ def _gen_extreme(rng, cname, shape):
             "sexp": rng.choice([30, -30, 30, 20, -20]), "shape": shape}
 
 
+# ---- metamorphic stream: cones with NON-dyadic float entries; differences on facets of the ideal cone
+_META_MATS = [
+    # (float matrix as a user would write it, integer rows spanning the same ideal facets)
+    ([[0.1, -0.2, 0.4], [0.4, 0.1, -0.2], [-0.2, 0.4, 0.1]], [[1, -2, 4], [4, 1, -2], [-2, 4, 1]]),
+    ([[0.3, -0.1], [-0.1, 0.3]], [[3, -1], [-1, 3]]),
+    ([[0.6, 0.8], [0.8, -0.6]], [[3, 4], [4, -3]]),
+    ([[1 / 3, -2 / 3, 2 / 3], [2 / 3, 1 / 3, -2 / 3], [-2 / 3, 2 / 3, 1 / 3]], [[1, -2, 2], [2, 1, -2], [-2, 2, 1]]),
+    ([[2 / 7, 3 / 7, 6 / 7], [6 / 7, 2 / 7, 3 / 7], [3 / 7, 6 / 7, 2 / 7], [0.1, 0.1, 0.1]],
+     [[2, 3, 6], [6, 2, 3], [3, 6, 2], [1, 1, 1]]),
+    ([[0.7, 0.1], [0.1, 0.7], [0.3, 0.3]], [[7, 1], [1, 7], [1, 1]]),
+    ([[0.1, 0.0, 0.0, 0.3], [0.0, 0.7, -0.1, 0.0], [0.0, -0.1, 0.7, 0.0], [-0.3, 0.0, 0.0, 1.1]],
+     [[1, 0, 0, 3], [0, 7, -1, 0], [0, -1, 7, 0], [-3, 0, 0, 11]]),
+]
+_META_TAN = [(1, 2), (1, 3), (2, 3), (1, 4), (3, 4), (1, 5), (2, 5), (3, 5), (0, 1), (-1, 2), (-1, 3), (-2, 3),
+             (-3, 4), (-1, 5), (-2, 5), (5, 12), (-5, 12), (8, 15)]
+
+
+def _meta_specs():
+    """[(constructor spec, integer rows of the ideal cone or None)]"""
+    specs = [({"type": "cone3d", "cone_type": "acute"}, [[1, -2, 4], [4, 1, -2], [-2, 4, 1]]),
+             ({"type": "cone3d", "cone_type": "obtuse"}, [[5, 2, 8], [8, 5, 2], [2, 8, 5]]),
+             ({"type": "cone3d", "cone_type": "right"}, [[1, 0, 0], [0, 1, 0], [0, 0, 1]])]
+    for Wf, R in _META_MATS:
+        specs.append(({"type": "matrix", "W": Wf}, R))
+    for pq in _META_TAN:
+        # tan(pi/4 - theta/2) = p/q  =>  ideal rows (-p, q), (q, -p)
+        th = math.degrees(2 * (math.pi / 4 - math.atan2(pq[0], pq[1])))
+        specs.append(({"type": "theta", "theta": th}, [[-pq[0], pq[1]], [pq[1], -pq[0]]]))
+    for th in (90, 45, 60, 120, 135, 30.5):
+        R = [[0, 1], [1, 0]] if th == 90 else None
+        specs.append(({"type": "theta", "theta": th}, R))
+    for K, th in ((8, 30), (3, 45), (16, 60), (5, 10.5)):
+        specs.append(({"type": "ice", "K": K, "theta": th}, None))
+    for cname in ("threefacet2", "acute3", "pyramid3", "halfplane2"):
+        specs.append(({"type": "matrix", "W": [[float(x) for x in r] for r in ALL_CONES[cname][0]]},
+                      ALL_CONES[cname][0]))
+    return specs
+
+
+def _meta_dim(spec):
+    if spec["type"] == "theta":
+        return 2
+    if spec["type"] in ("cone3d", "ice"):
+        return 3
+    return len(spec["W"][0])
+
+
+def _small_on_facet(rng, R, m):
+    """small dyadic vector exactly orthogonal to one ideal (integer) row, oriented into the ideal cone if possible"""
+    for _ in range(30):
+        w = R[rng.randrange(len(R))]
+        e = [rng.randint(-3, 3) for _ in range(m)]
+        ww = sum(x * x for x in w)
+        we = sum(x * y for x, y in zip(w, e))
+        d = [ww * y - we * x for x, y in zip(w, e)]
+        g = 0
+        for x in d:
+            g = math.gcd(g, abs(int(x)))
+        if g == 0:
+            continue
+        d = [int(x) // g for x in d]
+        if max(abs(x) for x in d) > 40:
+            continue
+        for sgn in (1, -1):
+            dd = [sgn * x for x in d]
+            if all(sum(a * b for a, b in zip(r, dd)) >= 0 for r in R):
+                k = rng.choice([1, 1, 2, 3]) * 2.0 ** (-rng.choice([0, 0, 1, 2]))
+                return [k * x for x in dd]
+    return [0.0] * m
+
+
+def _gen_meta(rng, spec, R):
+    m = _meta_dim(spec)
+    D = []
+    for _ in range(5):
+        r = rng.random()
+        if R is not None and r < 0.75:
+            D.append(_small_on_facet(rng, R, m))
+        elif r < 0.9:
+            D.append([rng.randint(-4, 4) / 2.0 for _ in range(m)])
+        else:
+            D.append([rng.randint(0, 6) / 2.0 for _ in range(m)])
+    base = [[0.0] * m] + [[rng.randint(-3, 3) / 2.0 for _ in range(m)] for _ in range(2)] + \
+           [[rng.randint(-13, 13) / 4.0 for _ in range(m)]]
+    T = []
+    for _ in range(5):
+        if rng.random() < 0.5:
+            e = rng.randint(-3, 10)
+            T.append([rng.randint(-7, 7) * 2.0 ** e for _ in range(m)])
+        else:
+            T.append([rng.randint(-7, 7) * 2.0 ** rng.randint(-3, 10) for _ in range(m)])
+    T.append([rng.randint(-3, 3) / 2.0 for _ in range(m)])
+    return {"kind": "meta", "ctor": spec, "D": D, "base": base, "T": T,
+            "ks": sorted(set(rng.randint(-10, 10) for _ in range(3)))}
+
+
 def _probe_offsets(rng, n=6):
     return [rng.uniform(-math.pi, math.pi) for _ in range(n)]
 
@@ -402,6 +502,15 @@ def gen(ctx):
                 yield _gen_extreme(rng, cname, shape)
     for _ in range(ctx.n(500, 40000)):
         yield _gen_extreme(rng, rng.choice(names), rng.choice(EXTREME_SHAPES))
+    # ---- metamorphic translation / power-of-two scaling invariance on cones with non-dyadic entries (bundled
+    #      acute/obtuse, theta-cones, ice-cream, user float matrices), weighted to differences on ideal facets
+    specs = _meta_specs()
+    for spec, R in specs:
+        if mine():
+            yield _gen_meta(rng, spec, R)
+    for _ in range(ctx.n(220, 12000)):
+        spec, R = specs[rng.randrange(len(specs))] if rng.random() < 0.8 else rng.choice(specs[:3 + len(_META_MATS)])
+        yield _gen_meta(rng, spec, R)
     # ---- OrderingCone.__eq__
     for _ in range(ctx.n(40, 1500)):
         cname = rng.choice(names)
@@ -1037,7 +1146,138 @@ def _run_extreme(ctx, case):
     ctx.case_done(case, bool(np.any(d != 0)), canon=["extreme", mode, W, case["a"], case["b"], case["t"], case["sexp"]])
 
 
-_RUN = {"extreme": _run_extreme, "dtype": _run_dtype, "dom": _run_dom, "batch": _run_batch, "laws": _run_laws, "ctor2d": _run_ctor2d, "ctor3d": _run_ctor3d,
+_meta_cache = {}
+
+
+def _meta_order(spec):
+    import json
+
+    import vopy.ordering_cone as oc
+    from vopy.order import ConeOrder3D, ConeOrder3DIceCream, ConeTheta2DOrder, PolyhedralConeOrder
+    from vopy.ordering_cone import OrderingCone
+
+    key = json.dumps(spec, sort_keys=True)
+    if key not in _meta_cache:
+        saved = oc.get_alpha_vec
+        try:
+            if spec["type"] == "ice" and int(spec["K"]) > 8:
+                oc.get_alpha_vec = lambda W: np.ones(len(W))
+            if spec["type"] == "cone3d":
+                o = ConeOrder3D(spec["cone_type"])
+            elif spec["type"] == "theta":
+                o = ConeTheta2DOrder(spec["theta"])
+            elif spec["type"] == "ice":
+                o = ConeOrder3DIceCream(spec["theta"], int(spec["K"]))
+            elif spec["type"] == "matrix":
+                o = PolyhedralConeOrder(OrderingCone(np.array(spec["W"], dtype=float)))
+            else:
+                raise RuntimeError(f"unknown cone spec {spec}")
+        finally:
+            oc.get_alpha_vec = saved
+        _meta_cache[key] = o
+    return _meta_cache[key]
+
+
+def _exact_rows(X, Y, op):
+    """row-wise float X op Y and a mask of the rows where every coordinate is exact"""
+    R = op(X, Y)
+    ok = [all(op(core.frac(u), core.frac(v)) == core.frac(w) for u, v, w in zip(x, y, r))
+          for x, y, r in zip(X.tolist(), Y.tolist(), R.tolist())]
+    return R, np.array(ok, dtype=bool)
+
+
+def _run_meta(ctx, case):
+    """(R) metamorphic: with a-b, a+t, b+t and (a+t)-(b+t) all exact in float64 (asserted with Fractions), the
+    unchanged code hands the bit-identical difference to is_inside for (a, b) and (a+t, b+t), whatever the rounding of
+    W — so dominates must give the same answer; likewise for (2^k a, 2^k b)."""
+    import operator
+
+    spec = case["ctor"]
+    ctx.count("meta_cone_" + spec["type"] + ("_" + spec["cone_type"] if spec["type"] == "cone3d" else ""))
+    try:
+        order = _meta_order(spec)
+    except Exception as e:
+        ctx.violation("meta-ctor-crash:" + core.exc_key(e), f"constructor {spec} raised {type(e).__name__}: {e}", case)
+        return
+    Wst = np.asarray(order.ordering_cone.W, dtype=float)
+    m = Wst.shape[1]
+    Dl = [d for d in case["D"] for _ in case["base"]]
+    Bl = [b for _ in case["D"] for b in case["base"]]
+    D0 = np.array(Dl, dtype=float).reshape(-1, m)
+    B = np.array(Bl, dtype=float).reshape(-1, m)
+    A, okA = _exact_rows(B, D0, operator.add)
+    Dab, okD = _exact_rows(A, B, operator.sub)
+    keep = okA & okD & np.all(Dab == D0, axis=1)
+    A, B, D0 = A[keep], B[keep], D0[keep]
+    n = len(A)
+    if n == 0:
+        ctx.case_done(case, False)
+        return
+    fired = 0
+    try:
+        ref1 = [_blist(order.dominates(A[i].copy(), B[i].copy()))[0] for i in range(n)]
+        refB = _blist(order.dominates(A.copy(), B.copy()))
+        # on-facet bookkeeping: some facet value of the stored W within rounding distance of zero
+        knife = [any(abs(float(v)) <= 1e-13 * (1 + float(np.abs(D0[i]).sum())) for v in _facet_vals(Wst.tolist(), D0[i].tolist()))
+                 for i in range(n)]
+        ctx.count("meta_pairs", n)
+        ctx.count("meta_pairs_on_facet", sum(knife))
+        for t in case["T"]:
+            tv = np.array(t, dtype=float)
+            Tm = np.tile(tv, (n, 1))
+            At, ok1 = _exact_rows(A, Tm, operator.add)
+            Bt, ok2 = _exact_rows(B, Tm, operator.add)
+            Dt, ok3 = _exact_rows(At, Bt, operator.sub)
+            ok = ok1 & ok2 & ok3 & np.all(Dt == D0, axis=1)
+            for i in range(n):
+                if not ok[i]:
+                    ctx.count("meta_translation_not_exact_skipped")
+                    continue
+                fired += 1
+                got = _blist(order.dominates(At[i].copy(), Bt[i].copy()))[0]
+                if got != ref1[i]:
+                    ctx.violation("translation-variant",
+                                  f"dominates(a+t, b+t) = {got} but dominates(a, b) = {ref1[i]} although a-b = (a+t)-(b+t) = "
+                                  f"{D0[i].tolist()} exactly (a = {A[i].tolist()}, b = {B[i].tolist()}, t = {t}); cone {spec}",
+                                  case, detail={"a": A[i].tolist(), "b": B[i].tolist(), "t": t, "on_facet": knife[i],
+                                                "facet_values": [float(v) for v in _facet_vals(Wst.tolist(), D0[i].tolist())]})
+                    return
+            if ok.all():
+                gotB = _blist(order.dominates(At.copy(), Bt.copy()))
+                if gotB != refB:
+                    i = next(j for j in range(n) if gotB[j] != refB[j])
+                    ctx.violation("translation-variant-batched",
+                                  f"batched dominates(A+t, B+t)[{i}] = {gotB[i]} but dominates(A, B)[{i}] = {refB[i]} for the same "
+                                  f"batch translated by t = {t} (row difference {D0[i].tolist()} unchanged exactly); cone {spec}",
+                                  case, detail={"a": A[i].tolist(), "b": B[i].tolist(), "t": t, "on_facet": knife[i]})
+                    return
+            else:
+                ctx.count("meta_batch_translation_not_exact_skipped")
+        for k in case.get("ks", []):
+            sc = float(2.0 ** int(k))
+            for i in range(n):
+                fired += 1
+                got = _blist(order.dominates(sc * A[i], sc * B[i]))[0]
+                if got != ref1[i]:
+                    ctx.violation("scaling-variant",
+                                  f"dominates(2^{k} a, 2^{k} b) = {got} but dominates(a, b) = {ref1[i]} "
+                                  f"(a = {A[i].tolist()}, b = {B[i].tolist()}); cone {spec}", case,
+                                  detail={"a": A[i].tolist(), "b": B[i].tolist(), "k": k, "on_facet": knife[i]})
+                    return
+            gotB = _blist(order.dominates(sc * A, sc * B))
+            if gotB != refB:
+                i = next(j for j in range(n) if gotB[j] != refB[j])
+                ctx.violation("scaling-variant-batched",
+                              f"batched dominates(2^{k} A, 2^{k} B)[{i}] = {gotB[i]} but dominates(A, B)[{i}] = {refB[i]}; cone {spec}",
+                              case, detail={"a": A[i].tolist(), "b": B[i].tolist(), "k": k, "on_facet": knife[i]})
+                return
+    except Exception as e:
+        ctx.violation("meta-crash:" + core.exc_key(e), f"dominates raised {type(e).__name__}: {e}", case)
+        return
+    ctx.case_done(case, fired > 0 and any(knife), canon=["meta", spec, case["D"], case["base"], case["T"], case.get("ks")])
+
+
+_RUN = {"meta": _run_meta, "extreme": _run_extreme, "dtype": _run_dtype, "dom": _run_dom, "batch": _run_batch, "laws": _run_laws, "ctor2d": _run_ctor2d, "ctor3d": _run_ctor3d,
         "ice": _run_ice, "eq": _run_eq, "comp": _run_comp}
 
 
